@@ -115,7 +115,7 @@ def cnode(n):
 def make_replacement(node, salt):
     """a fresh node of the same class: a changed deep copy with a fresh loc"""
     r = copy.deepcopy(node)
-    r.loc = (700000 + salt, 700001 + salt)
+    r.loc = (100000 + salt, 100001 + salt)
     nm = getattr(r, "name", None)
     if isinstance(nm, A.Name):
         nm.value = "repl%d" % (salt % 7)
@@ -162,7 +162,7 @@ def xoptions(k):
 
 
 def make_xreplacement(salt, cls):
-    """a fresh node of class cls with fresh locations (800000 + 100 * salt + i)"""
+    """a fresh node of class cls with fresh locations (20000 + 40 * salt + i; small numbers: locations are unary in the model)"""
     src = XSRC[cls]
     if cls in XFAM[0]:
         r = parse("{ q(a: %s) }" % src, **G.PARSE_KW).definitions[0].selection_set.selections[0].arguments[0].value
@@ -172,7 +172,7 @@ def make_xreplacement(salt, cls):
         r = parse("{ %s }" % src, **G.PARSE_KW).definitions[0].selection_set.selections[0]
     assert type(r).__name__ == cls, (cls, r)
     for i, n in enumerate(walk(r)):
-        n.loc = (800000 + 100 * salt + i, 800001 + 100 * salt + i)
+        n.loc = (20000 + 40 * salt + i, 20001 + 40 * salt + i)
     return r
 
 
@@ -183,7 +183,7 @@ def _replacement_for(idx, chain, k, key, loc, act, salt):
     if target is None:
         # rule keyed on a fresh loc introduced by an earlier visitor's replacement
         base = idx.get((k, tuple(chain["fresh"][str(loc[0])])))
-        target = make_replacement(base, loc[0] - 700000)
+        target = make_replacement(base, loc[0] - 100000)
     return make_replacement(target, salt)
 
 
@@ -390,8 +390,8 @@ def corpus():
             out.append(visit_case(t, ch))
     ch = shared_chain(1, [0, 0])      # the same rewriter twice: rewrites its own replacement again
     ch["visitors"][0]["rules"].append([fields[0][0], fields[0][1], "replace", 3])
-    ch["fresh"][str(700003)] = fields[0][1]
-    ch["visitors"][0]["rules"].append([fields[0][0], [700003, 700004], "replace", 4])
+    ch["fresh"][str(100003)] = fields[0][1]
+    ch["visitors"][0]["rules"].append([fields[0][0], [100003, 100004], "replace", 4])
     out.append(visit_case(t, ch))
     # seeded C18-f: enter returning a node of ANOTHER class (admissible in the slot): enter is called once,
     # on the original; the body of the original's method runs on the replacement; leave sees the replacement.
@@ -506,9 +506,9 @@ def generate(rng, tier):
             if n > 1:
                 for (k, loc, act, s) in list(ch["visitors"][0]["rules"]):
                     if act == "replace" and rng.random() < 0.6 and loc:
-                        ch["fresh"][str(700000 + s)] = loc
+                        ch["fresh"][str(100000 + s)] = loc
                         ch["visitors"][1]["rules"].append(
-                            [k, [700000 + s, 700001 + s], rng.choice(["skip", "delete", "replace"]), 900 + s])
+                            [k, [100000 + s, 100001 + s], rng.choice(["skip", "delete", "replace"]), 900 + s])
             cases.append(visit_case(text, ch, noloc=rng.random() < 0.4))
         # shared instances / nested chains
         for _ in range(1 if tier == "quick" else 3):
